@@ -600,6 +600,43 @@ def dict_stream(ctx, res, n):
                     break
 
 
+def string_iterable_stream(ctx, res):
+    """a str (or bytes) handed where an iterable is expected is iterated character by character (byte by byte), like the built-in
+    list does — extend, +=, +, slice assignment, the constructor route"""
+    import cincoconfig as cc
+    s = cc.Schema()
+    s.flags = cc.ListField(cc.StringField(), default=lambda: [])
+    s.nums = cc.ListField(cc.IntField(), default=lambda: [])
+    for text in ("RW", "", "x", "\u00e4\u00f6", "abc"):
+        for form, do in (("extend", lambda l, t: l.extend(t)), ("+=", lambda l, t: l.__iadd__(t)), ("slice", lambda l, t: l.__setitem__(slice(len(l), None), t)),
+                         ("+", None)):
+            cfg = s()
+            cfg.flags = ["X"]
+            builtin = ["X"]
+            res.case(stable(["str-iterable", text, form]), kind="string-iterable")
+            try:
+                if form == "+":
+                    got = list(cfg.flags + text)
+                    want = builtin + list(text)
+                else:
+                    do(cfg.flags, text)
+                    do(builtin, text)
+                    got, want = list(cfg.flags), builtin
+            except Exception as e:  # noqa
+                res.violate("C17:list-differs:string-iterable", "`typed %s <str>` raised %s" % (form, type(e).__name__), {"stream": "string-iterable", "text": text, "form": form})
+                continue
+            if got != want:
+                res.violate("C17:list-differs:string-iterable", "a str handed as the iterable is not taken apart into its characters like the built-in list does",
+                            {"stream": "string-iterable", "text": text, "form": form, "typed": got, "builtin": want})
+    cfg = s()
+    cfg.nums = [0]
+    cfg.nums.extend("123")
+    cfg.nums += "45"
+    if list(cfg.nums) != [0, 1, 2, 3, 4, 5]:
+        res.violate("C17:list-differs:string-iterable", "extend('123') on a list of integers does not add the validated characters one by one",
+                    {"stream": "string-iterable", "typed": list(cfg.nums), "builtin-of-validated-items": [0, 1, 2, 3, 4, 5]})
+
+
 def dict_forms_stream(ctx, res):
     """call forms and queries of typed dicts that the history stream does not draw: `update` with an object that merely offers
     keys() and __getitem__ (what dict.update accepts), `setdefault(key)` for a key that is there when the value field is required,
@@ -682,6 +719,7 @@ def run(ctx, n_quick=400, n_thorough=20000):
     guard(res, "C17", list_stream, ctx, res, ctx.n(n_quick, n_thorough))
     guard(res, "C17", dict_stream, ctx, res, ctx.n(n_quick, n_thorough))
     guard(res, "C17", dict_forms_stream, ctx, res)
+    guard(res, "C17", string_iterable_stream, ctx, res)
     return res
 
 
